@@ -136,6 +136,10 @@ class Differ:
             self.recover()
             r = self.c.cmd("FLUSHALL")
         if r != resp.OK:
+            # the connection is in a state the last history left it in (inside MULTI, subscribed, ...): start over
+            self.connect()
+            r = self.c.cmd("FLUSHALL")
+        if r != resp.OK:
             raise RuntimeError("FLUSHALL failed: %r" % (r,))
         self.model = Model(len(self.model.dbs))
         self.history = []
@@ -161,6 +165,48 @@ class Differ:
         raise Abandon(sig)
 
     # ------------------------------------------------------------------ one step
+    def step_via_script(self, argv):
+        """The same command through redis.call in a script: the EFFECT on the dataset must be the one the
+        model computes for the direct command (the reply conversion is C12's subject: here only 'error or
+        not' and, for plain integer / bulk replies, the value). Returns False when the command is not
+        suitable for this path (the caller then sends it directly)."""
+        from .model import Unordered, OneOf, Score, IntRange, Pairs, Adopt, Any
+        argv = [resp.tob(a) for a in argv]
+        name = argv[0].upper().decode("latin1")
+        if name in ("SELECT", "BLPOP", "BRPOP", "SPOP", "SRANDMEMBER", "RANDOMKEY", "FLUSHALL", "KEYS", "SCAN", "MULTI", "EXEC", "WATCH"):
+            return False
+        import copy
+        backup = copy.deepcopy(self.model)
+        exp = self.model.apply(self.db, argv)
+
+        def has_matcher(x):
+            if isinstance(x, (Unordered, OneOf, Score, IntRange, Pairs, Adopt, Any)):
+                return True
+            if isinstance(x, (list, tuple)):
+                return any(has_matcher(y) for y in x)
+            return False
+        if isinstance(exp, Adopt) or (has_matcher(exp) and not isinstance(exp, (Unordered, OneOf, Score))):
+            self.model = backup          # the model needs the direct reply to go on: not for this path
+            return False
+        self.history.append([b"<via script>"] + argv)
+        self.res.evaluations += 1
+        try:
+            act = self.c.cmd(b"EVAL", b"return redis.pcall(unpack(ARGV))", b"0", *argv)
+        except (Closed, Timeout, resp.ProtocolError) as e:
+            time.sleep(0.05)
+            died, what = self.recover()
+            self.diverge("script/%s/%s" % (name, "server-died" if died else type(e).__name__.lower()),
+                         "redis.pcall%s: connection %s%s" % (resp.show(argv), type(e).__name__, what))
+        self.res.cell("via-script", name, rclass(act))
+        if isinstance(exp, Err) != isinstance(act, Err):
+            self.diverge("script/%s/%s->%s" % (name, rclass(exp), rclass(act)),
+                         "redis.pcall%s -> %s, the direct command would give %r" % (resp.show(argv), resp.show(act), exp))
+        # (a script sees numbers as doubles: integers beyond 2^53 do not survive the trip in any Redis either)
+        if isinstance(exp, int) and not isinstance(exp, bool) and abs(exp) <= (1 << 53) and act != exp:
+            self.diverge("script/%s/int->%s" % (name, rclass(act)), "redis.pcall%s -> %s, the direct command gives %r" % (resp.show(argv), resp.show(act), exp))
+        self.probe_keys(argv[1:4], name + "-via-script")
+        return True
+
     def step(self, argv, probe=None, cellinfo=True):
         """Send one command, compare with the model. probe: None = probe touched
         keys only when the model refused; True = always; False = never."""
